@@ -319,3 +319,4 @@ J('bitutil.ReverseBits32.contract', 'h_enf_ReverseBits32', ['C17'], enforce='Rev
 J('bitutil.CopyBits32.contract', 'h_enf_CopyBits32', ['C17'], enforce='CopyBits32')
 for f in ['remaining_size', 'bit_decoder_active', 'Advance']:
     J('decbuf.%s.contract' % f, 'h_enf_DecoderBuffer_' + f, ['C17', 'C02'], enforce='DecoderBuffer_' + f)
+J('encbuf.EncodeBytes.contract', 'h_enf_EncoderBuffer_EncodeBytes', ['C17', 'C11'], enforce='EncoderBuffer_EncodeBytes', replace=['vec_char_append'])
